@@ -358,6 +358,14 @@ fn rect_case(out: &mut Out, pts: &[IPt], s: i32, gen: &str) {
                 }
                 out.bucket("rect_min_area_checked");
             }
+            if let Some(msg) = &fail {
+                let hull = convex_hull(&fpts);
+                let n = hull.len();
+                let hits = f32_range_hits((0..n).map(|i| (hull[i], hull[(i + 1) % n])));
+                if hits > 0 {
+                    fail = Some(format!("{msg} [f32-range: {hits} of {n} hull edge lengths overflow/underflow in f32]"));
+                }
+            }
             ("some".to_string(), fail)
         }
         Err(m) => (format!("panic {m}"), Some(format!("min_area_rect panicked: {m}"))),
@@ -365,6 +373,23 @@ fn rect_case(out: &mut Out, pts: &[IPt], s: i32, gen: &str) {
     out.bucket(&format!("rect_gen_{gen}"));
     out.bucket(if s == 0 { "rect_exact_range" } else { "rect_scaled" });
     out.case(&req, &ans, fail.as_deref(), pts.len() >= 3);
+}
+
+/// Number of segments between consecutive-or-any listed point pairs whose squared length, as
+/// `Vec2::length` computes it in f32, overflows (inf/NaN) or underflows (below the smallest
+/// normal f32, including 0) although the points differ. This is the mechanism behind the known
+/// f32-range findings; the tag is only printed when it really occurs.
+fn f32_range_hits(pairs: impl Iterator<Item = (PointF, PointF)>) -> usize {
+    pairs
+        .filter(|(a, b)| {
+            if a == b {
+                return false;
+            }
+            let v = a.vec_to(*b);
+            let l2 = v.x * v.x + v.y * v.y;
+            !l2.is_finite() || l2 < f32::MIN_POSITIVE
+        })
+        .count()
 }
 
 // ---------------------------------------------------------------- simplification
@@ -486,7 +511,15 @@ fn dp_case(out: &mut Out, pts: &[IPt], closed: bool, eps: f32, s: i32, gen: &str
             let fail = match conv {
                 Some(oi) => {
                     out.bucket(if oi.len() == pts.len() { "dp_kept_all" } else { "dp_removed_some" });
-                    dp_oracle(pts, &oi, closed, eps, s)
+                    dp_oracle(pts, &oi, closed, eps, s).map(|msg| {
+                        let m = poly.len();
+                        let hits = f32_range_hits((0..m).flat_map(|i| (i + 1..m).map(move |j| (i, j))).map(|(i, j)| (poly[i], poly[j])));
+                        if hits > 0 {
+                            format!("{msg} [f32-range: {hits} segment lengths overflow/underflow in f32]")
+                        } else {
+                            msg
+                        }
+                    })
                 }
                 None => Some("result contains a point that is not an input point".to_string()),
             };
@@ -546,7 +579,44 @@ fn mixed_scale_case(out: &mut Out, rng: &mut Rng) {
     let (ans, fail) = match res {
         Ok(h) => {
             let hi: Vec<IPt> = h.iter().map(|p| (p.x as f64 as i64, p.y as f64 as i64)).collect();
-            (fmt_pts(&hi), hull_oracle(&pts, &hi))
+            let mut fail = hull_oracle(&pts, &hi);
+            // For a containment failure on a proper (>= 3 point, subset, duplicate-free) hull report
+            // how far outside the worst point is, relative to the largest coordinate magnitude.
+            if let Some(msg) = &fail {
+                if msg.contains("outside hull edge") && hi.len() >= 3 {
+                    let scale = pts.iter().map(|p| p.0.abs().max(p.1.abs())).max().unwrap_or(1).max(1) as f64;
+                    let mut worst = 0.0f64;
+                    for i in 0..hi.len() {
+                        let (a, b) = (hi[i], hi[(i + 1) % hi.len()]);
+                        let len = (((b.0 - a.0) as f64).powi(2) + ((b.1 - a.1) as f64).powi(2)).sqrt();
+                        for &q in &pts {
+                            let c = cross(a, b, q);
+                            if c < 0 && len > 0.0 {
+                                worst = worst.max(-(c as f64) / len / scale);
+                            }
+                        }
+                    }
+                    // The model's exactness premise: every pairwise coordinate difference must be
+                    // exactly representable in f64. Count the differences that are not.
+                    let mut inexact = 0usize;
+                    for i in 0..pts.len() {
+                        for j in i + 1..pts.len() {
+                            for d in [pts[j].0 - pts[i].0, pts[j].1 - pts[i].1] {
+                                if (d as f64) as i128 != d as i128 {
+                                    inexact += 1;
+                                }
+                            }
+                        }
+                    }
+                    let tag = if inexact > 0 {
+                        format!(" [f64-inexact: {inexact} coordinate differences are not representable in f64]")
+                    } else {
+                        String::new()
+                    };
+                    fail = Some(format!("{msg}; worst point is rel {:.2e} of the coordinate scale outside{tag}", worst));
+                }
+            }
+            (fmt_pts(&hi), fail)
         }
         Err(m) => ("panic".to_string(), Some(format!("convex_hull panicked: {m}"))),
     };
